@@ -422,7 +422,7 @@ def oracle(ctx):
                     gr = torch.autograd.grad(L_, (Adg, Mdg) if useM_ else (Adg,))
                 outs.append([herm(t) for t in gr])
             ctx.count(("diagonal-partial", kind, useM_), nontrivial=True)
-            if any(float((a_ - b_).abs().max()) > 1e-8 for a_, b_ in zip(*outs)):
+            if any(not float((a_ - b_).abs().max()) <= 1e-8 for a_, b_ in zip(*outs)):
                 ctx.fail("oracle", "symeig-grad:exactly-diagonal-partial-spectrum", {"A": "diag(1,2,3,5)", "M": useM_, "operator": kind, "neig": 2},
                          [float((a_ - b_).abs().max()) for a_, b_ in zip(*outs)], "agrees with the dense reference")
     # ---- the backward pass uses the parameters SAVED by the forward pass, whatever happened to the operator object since
@@ -442,7 +442,7 @@ def oracle(ctx):
                 op.a = A2                                  # the caller re-uses the operator object for another matrix
             outs.append(herm(torch.autograd.grad(L_, A1)[0]))
     ctx.count(("operator-reused-before-backward",), nontrivial=True)
-    if float((outs[0] - outs[1]).abs().max()) > 1e-9:
+    if not float((outs[0] - outs[1]).abs().max()) <= 1e-9:
         ctx.fail("oracle", "symeig-grad:operator-reused-before-backward", {"method": "custom_exacteig", "n": 5, "neig": 2},
                  float((outs[0] - outs[1]).abs().max()), "the gradient is that of the matrix the forward pass saw")
     # ---- finding F30: exactly representable eigenpairs (a diagonal, non-degenerate matrix) ----
